@@ -661,7 +661,8 @@ class AnnealResults(list):
 
         """
         if isinstance(other, AnnealResults):
-            if other.best < self.best:
+            if other.best is not None and (
+                    self.best is None or other.best < self.best):
                 self.best = other.best
             return super().__iadd__(other)
 
@@ -680,7 +681,8 @@ class AnnealResults(list):
 
         """
         if isinstance(other, AnnealResults):
-            if other.best < self.best:
+            if other.best is not None and (
+                    self.best is None or other.best < self.best):
                 self.best = other.best
             super().extend(other)
         else:
